@@ -224,6 +224,15 @@ def rule_body_text(ctx, file, s):
     s = sub("R-split", r"(\w+)\.split\('(.)'\)\.collect::<Vec<_>>\(\)", r"str_split_char(\1, '\2')", s)
     s = sub("R-add", r"\((\w+KeySeparator::default\(\)) \+ (&?\w+)\)", r"(std::ops::Add::add(\1, \2))", s)
     s = sub("R-underscore", r"\|_\|", "|_e|", s)
+    # R-localtype: a fn-local `type A = T;` is inlined (Verus rejects item statements); `A::f` -> `<T>::f`
+    for m in list(re.finditer(r"\btype (\w+) = ([^;]+);", s)):
+        name, ty = m.group(1), m.group(2).strip()
+        ctx.log("R-localtype", file, 0, m.group(0), "<%s>" % ty)
+        s = s.replace(m.group(0), "")
+        s = re.sub(r"\b%s::" % name, "<%s>::" % ty, s)
+        s = re.sub(r"\b%s\b" % name, ty, s)
+    # R-tryinto: `let P = CHAIN.try_into()?;` -> `let P = TryFrom::try_from(CHAIN)?;` (definition of the blanket TryInto impl)
+    s = sub("R-tryinto", r"(let [^=;]+= )([^;]+?)\.try_into\(\)\?;", r"\1TryFrom::try_from(\2)?;", s)
     # R-vecslice: NAME[range].copy_from_slice(..) on a local `let mut NAME = vec![..]` -> NAME.as_mut_slice()[range]...
     # (definition of `impl IndexMut<I> for Vec<T>`: index_mut(&mut **self, i)); vstd specifies the slice form only
     for name in set(re.findall(r"let mut (\w+) = vec!\[", s)):
